@@ -24,6 +24,10 @@ pub struct Layout {
     pub trailing_comments: u32,
     /// salt for the per-line pseudo-random layout choices
     pub salt: u64,
+    /// per-mille of lines that carry stray CRs (not part of a CRLF pair) in the blank run
+    /// before their terminator: `1 0\r \n`, `1 0\r\r\n` - blanks, not line breaks
+    #[serde(default)]
+    pub stray_cr: u32,
 }
 
 impl Layout {
@@ -38,6 +42,7 @@ impl Layout {
             sep: 0,
             trailing_comments: 0,
             salt: 0,
+            stray_cr: 0,
         }
     }
 }
@@ -172,6 +177,10 @@ fn h(salt: u64, a: u64) -> u64 {
 
 impl<'a> P<'a> {
     fn eol(&mut self) {
+        if self.lay.stray_cr > 0 && (h(self.lay.salt ^ 0x77, self.line as u64) % 1000) < self.lay.stray_cr as u64 {
+            let pool = ["\r ", "\r\r", " \r\t", "\r \r "];
+            self.out.push_str(pool[(h(self.lay.salt ^ 0x78, self.line as u64) % pool.len() as u64) as usize]);
+        }
         let crlf = match self.lay.eol {
             0 => false,
             1 => true,
